@@ -1210,6 +1210,10 @@ func genTxb(g *Gen) {
 	genTxbSweeps(g)
 	n := g.Scale(70, 1400)
 	for h := 0; h < n; h++ {
+		if h%14 == 9 { // stale wallet, same block-file offsets (gen_stale_same.go)
+			genStaleSame(g)
+			continue
+		}
 		kind := ""
 		switch {
 		case h%10 == 3:
